@@ -289,7 +289,7 @@ pub fn outcome_from_wire(v: &[u64]) -> Option<(Outcome, Vec<Vec<Vec<u64>>>)> {
 }
 
 fn parse_reply(line: &str) -> Option<(usize, RunResult)> {
-    let mut it = line.split(' ');
+    let mut it = line.split(' ').filter(|t| !t.is_empty());
     let id: usize = it.next()?.parse().ok()?;
     let regular = it.next()? == "1";
     let ms: u64 = it.next()?.parse().ok()?;
